@@ -645,6 +645,9 @@ static void mi_arenas_try_purge( bool force, bool visit_all )
           }
           max_purge_count--;
         }
+        if (mi_atomic_loadi64_relaxed(&arena->purge_expire) != 0) {
+          all_visited = false;   // this arena still has a scheduled purge: keep the global expire so it is visited again
+        }
       }
     }
     if (all_visited) {
